@@ -403,3 +403,123 @@ def blocking_oracle(seed, tier, prop='C12'):
             res.nontrivial.add(('b', i))
     res.samples.append({'cap': cap, 'threads_tags': plans})
     return res
+
+
+# ---------------------------------------------------------------------------
+# CountCallbackInvoker under the scheduler: the submission thread increments once per ranged
+# GetObjectTask and finalizes, the tasks' done-callbacks decrement.  Operations take effect in the
+# order in which they acquire the invoker's lock (trace validated against the model's Cci), and
+# the C04 hand-off is judged directly: finalized and count 0 at the end => callback ran once.
+
+def cci_run(seed, nparts, mode, early):
+    """`early`: how many decrements may start before finalize (parts finishing while the submitter
+    is still looping); the remaining ones start after the last increment."""
+    from sched import Scheduler
+    from shim import Installed
+    sch = Scheduler(seed=seed, mode=mode, max_steps=20000)
+    events, fired = [], []
+    with Installed(sch, modules=['utils']):
+        from s3transfer.utils import CountCallbackInvoker
+        cur = {}
+
+        def cb():
+            fired.append(sch.me().name)
+        cci = CountCallbackInvoker(cb)
+        inner = cci._lock
+
+        class LockProxy:
+            def acquire(self, *a, **k):
+                r = inner.acquire(*a, **k)
+                cur[sch.me().name] = sch.tick()
+                return r
+
+            def release(self):
+                inner.release()
+
+            def __enter__(self):
+                self.acquire()
+                return self
+
+            def __exit__(self, *a):
+                self.release()
+        cci._lock = LockProxy()
+        started = {'n': 0}
+
+        def do(name, fn):
+            me = sch.me().name
+            before = len(fired)
+            out = 'ok'
+            try:
+                fn()
+                if len([f for f in fired[before:] if f == me]):
+                    out = 'fired'
+            except RuntimeError:
+                out = 'runtime-error'
+            events.append((cur[me], 'cci ' + name, out))
+
+        def part(i):
+            def run():
+                sch.block_until(lambda: started['n'] > i, 'part-submitted')
+                sch.point('get-object')
+                do('dec', cci.decrement)
+            return run
+
+        def main():
+            ts = [sch.spawn(part(i), 'p%d' % i) for i in range(nparts)]
+            for i in range(nparts):
+                do('inc', cci.increment)
+                if i < early:
+                    started['n'] = i + 1
+                sch.point('submitted')
+            started['n'] = max(started['n'], early)
+            do('fin', cci.finalize)
+            started['n'] = nparts
+            sch.block_until(lambda: all(t.finished for t in ts), 'join')
+        fail = sch.run(main, timeout=30)
+    return sorted(events), fired, fail, sch, cci
+
+
+def cci_conc_corr(seed, tier):
+    res = CorrResult('cci-concurrent')
+    rng = rng_for(seed, 'cci-conc')
+    cases = []
+    for i in range(300 if tier == 'quick' else 6000):
+        nparts = rng.randrange(1, 5)
+        early = rng.randrange(0, nparts + 1)
+        mode = ['uniform', 'sticky', 'pct'][i % 3]
+        events, fired, fail, sch, cci = cci_run(rng.randrange(1 << 30), nparts, mode, early)
+        case = {'parts': nparts, 'may_finish_before_finalize': early, 'mode': mode, 'schedule': sch.choices[:200]}
+        ops = [('cci new', 'ok')] + [(lab, out) for _, lab, out in events] + [('cci count', str(cci._count))]
+        order = tuple(l.split()[1] for _, l, _ in events)
+        res.note_case((nparts, order), 'dec' in order[order.index('fin'):] if 'fin' in order else False, case)
+        res.hit('fired-by:%s' % (fired[0][0] if fired else 'nobody'))
+        if fail is not None:
+            res.mismatches.append({'component': 'cci-concurrent', 'case': case, 'ops': [l for l, _ in ops],
+                                   'first_diverging_op': 'run', 'impl': repr(fail), 'model': 'terminates'})
+        else:
+            cases.append((case, ops))
+    compare_with_model(res, cases)
+    return res
+
+
+def cci_conc_oracle(seed, tier):
+    res = OracleResult('C04')
+    rng = rng_for(seed, 'cci-conc-oracle')
+    for i in range(400 if tier == 'quick' else 8000):
+        nparts = rng.randrange(1, 5)
+        early = rng.randrange(0, nparts + 1)
+        mode = ['uniform', 'sticky', 'pct'][i % 3]
+        events, fired, fail, sch, cci = cci_run(rng.randrange(1 << 30), nparts, mode, early)
+        res.evaluations += 1
+        order = tuple(l.split()[1] for _, l, _ in events)
+        res.nontrivial.add((nparts, order))
+        wit = {'parts': nparts, 'may_finish_before_finalize': early, 'mode': mode, 'schedule': sch.choices[:200],
+               'order_of_lock_acquisitions': list(order)}
+        if fail is not None:
+            res.violation('cci-hang', wit, repr(fail))
+        elif len(fired) != 1:
+            res.violation('final-task-handoff-lost' if not fired else 'final-task-handoff-doubled', wit,
+                          'CountCallbackInvoker: %d parts all finished and finalize() returned, but the callback that submits '
+                          'the final IO task ran %d times (the download would never be announced done)' % (nparts, len(fired)))
+    res.samples.append(wit)
+    return res
